@@ -17,7 +17,19 @@ def run_one(prop: str, tier: str) -> int:
     except ModuleNotFoundError:
         sys.stdout.write("ANALYSIS-ERROR property=%s no checker implemented\n" % prop)
         return 2
-    return report.run_check(prop, tier, lambda rep: mod.run(rep, tier))
+    def body(rep):
+        mod.run(rep, tier)
+        if tier == "thorough" and not os.environ.get("VP_NO_EVIDENCE"):
+            # informational: the checker against the seeded breaking changes / benign twins of this property
+            from . import selftest
+
+            st = selftest.for_property(prop)
+            rep.extra["selftest"] = st
+            missed = [k for k, v in st["breaking"].items() if not v["as_expected"]]
+            alarms = [k for k, v in st["twins"].items() if not v["as_expected"]]
+            rep.info("self-test: %d seeded breaking change(s) reported, %d missed %s; %d benign twin(s) silent, %d alarmed %s"
+                     % (len(st["breaking"]) - len(missed), len(missed), missed, len(st["twins"]) - len(alarms), len(alarms), alarms))
+    return report.run_check(prop, tier, body)
 
 
 def main(argv=None) -> int:
